@@ -21,8 +21,10 @@ import (
 //	bundle <letters|->
 //	fire <k>
 
-var cacheRatios = []float64{0, 0.25, 0.5, 0.75, 1}
-var cacheJitters = []float64{0, 0, 0.01, 1.0 / 16}
+// quarters with a jitter bound <= 1/16 have a deterministic delay bucket (compared with the model); the other
+// combinations cover the rest of [0,1]^2, there only the oracle judges the scheduled delay
+var cacheRatios = []float64{0, 0.25, 0.5, 0.75, 1, 0.25, 0.5, 0.75, 0.1, 0.9, 1.0 / 3.0, 0.6}
+var cacheJitters = []float64{0, 0, 0.01, 1.0 / 16, 0, 0.01, 0.3, 0.5, 1}
 
 // positive TTLs are at least an hour: the delay bucket is robust against stalls of minutes
 var cacheTTLs = []int64{3600, 3600, 7200, 86400, 86400, 7776000, 0, -60, -3600}
@@ -181,6 +183,10 @@ func execCache(in, outp string) {
 				out.Line(runStress(t))
 				return
 			}
+			if t[0] == "outdir" {
+				out.Line(runOutdir(t))
+				return
+			}
 			if s == nil {
 				s = newSUT(0.5, 0, false)
 			}
@@ -207,17 +213,23 @@ func execCache(in, outp string) {
 				s.ca.next = oc
 				q0 := s.q.len()
 				it, err := s.sc.GenerateSecret(res)
-				nb := "-"
+				nb, push := "-", "-"
 				if s.q.len() > q0 {
 					e := s.q.entries[s.q.len()-1]
-					if w := nacache.VerifCachedWorkload(s.sc); w != nil {
+					if w := nacache.VerifCachedWorkload(s.sc); w == nil {
+						nb = "?"
+					} else if !s.bucketable() {
+						nb = "*" // the jitter range spans several buckets: only the oracle judges the delay
+					} else {
 						// lifetime judged by the LEAF's NotAfter, not by the client's own bookkeeping
 						nb = fmt.Sprint(bucket(int64(e.delay), int64(leafNotAfter(w).Sub(w.CreatedTime))))
-					} else {
-						nb = "?"
+					}
+					push = "p" // PushDelayed was called with the cache still empty
+					if e.cachedAtPush {
+						push = "P"
 					}
 				}
-				out.Line(s.showRet(it, err), "ev="+s.takeEvents(), "nb="+nb, "|", s.showState())
+				out.Line(s.showRet(it, err), "ev="+s.takeEvents(), "nb="+nb, "push="+push, "|", s.showState())
 			case "bundle":
 				if len(t) != 2 {
 					out.Line("bad-op")
@@ -228,7 +240,7 @@ func execCache(in, outp string) {
 				if t[1] != "-" {
 					b = []byte(strings.Join(bundlePEMs(t[1]), ""))
 				}
-				_ = s.sc.UpdateConfigTrustBundle(b)
+				s.updateBundle(b)
 				changed := !bytes.Equal(before, nacache.VerifConfigTrustBundle(s.sc))
 				out.Line("changed="+wire.B(changed), "ev="+s.takeEvents(), "|", s.showState())
 			case "fire":
@@ -277,6 +289,10 @@ func execCache(in, outp string) {
 //	expiry-not-from-leaf, created-out-of-window   the client's ExpireTime is not the leaf's NotAfter / its CreatedTime is
 //	                    not inside the call
 //	negative-delay, late-schedule, not-strict   scheduled delay vs time to expiry OF THE LEAF (NotAfter)
+//	push-before-store   registerSecret called PushDelayed while the cache was still empty (a task that runs at once is
+//	                    a no-op and the certificate is never renewed)
+//	announce-before-store  a `ROOTCA` callback was delivered before configTrustBundle / certRoot held the announced value
+//	                    (a subscriber re-requesting ROOTCA from the callback would merge the old anchors)
 //	notify-before-clear a `default` callback was delivered while a certificate was still cached (a subscriber
 //	                    re-requesting from the callback would get the old certificate and nobody would renew it)
 //	rotation-missed     the rotation task of the cached certificate did not clear the cache and notify `default`
@@ -344,6 +360,13 @@ func oracleCache(in, outp string) {
 		if t[0] == "stress" {
 			if v := oracleStress(t); v != "" {
 				fail(v, t, "")
+			}
+			continue
+		}
+		if t[0] == "outdir" {
+			if r := runOutdir(t); strings.HasPrefix(r, "violated ") {
+				f := strings.Fields(r)
+				fail(f[1]+" "+strings.Join(f[2:], ","), t, "")
 			}
 			continue
 		}
@@ -448,9 +471,15 @@ func oracleCache(in, outp string) {
 				if (fresh && dq != 1) || (!fresh && dq != 0) {
 					fail("renewal-count", t, fmt.Sprint(dq))
 				}
+				if strings.Contains(ev, "r") {
+					fail("announce-before-store", t, ev)
+				}
 				if fresh && dq == 1 {
 					e := s.q.entries[s.q.len()-1]
 					e.cert = certID(after.CertificateChain)
+					if !e.cachedAtPush {
+						fail("push-before-store", t, "")
+					}
 					d := e.delay
 					now1 := time.Now()
 					// "no later than its expiry" is about the certificate that is served: the expiry is the
@@ -496,11 +525,14 @@ func oracleCache(in, outp string) {
 				if t[1] != "-" {
 					b = []byte(strings.Join(bundlePEMs(t[1]), ""))
 				}
-				_ = s.sc.UpdateConfigTrustBundle(b)
+				s.updateBundle(b)
 				ev := s.takeEvents()
 				after := nacache.VerifCachedWorkload(s.sc)
 				if strings.Contains(ev, "w") {
 					fail("notify-before-clear", t, ev)
+				}
+				if strings.Contains(ev, "r") {
+					fail("announce-before-store", t, ev)
 				}
 				if !bytes.Equal(beforeCfg, b) {
 					if ev != "RW" || after != nil || !bytes.Equal(nacache.VerifConfigTrustBundle(s.sc), b) {
